@@ -52,6 +52,7 @@ type filterPlan struct {
 	size     int
 	k        uint32
 	tweak    uint32
+	txTypes  []byte
 	adds     [][]byte
 }
 
@@ -64,6 +65,10 @@ func (p *filterPlan) direct() (*bloom.Filter, *msg.FilterLoad) {
 	}
 	fl := f.GetFilterLoadMsg()
 	p.size, p.k = len(fl.Filter), fl.HashFuncs
+	fl.TxTypes = nil
+	for _, tt := range p.txTypes {
+		fl.TxTypes = append(fl.TxTypes, common2.TxType(tt))
+	}
 	for _, a := range p.adds {
 		f.Add(a)
 	}
@@ -72,7 +77,7 @@ func (p *filterPlan) direct() (*bloom.Filter, *msg.FilterLoad) {
 
 // served builds the per-peer filter object of elanet/server.go from the wire form.
 func (p *filterPlan) served() (*filter.Filter, error) {
-	_, fl := (&filterPlan{ctor: p.ctor, elements: p.elements, fprate: p.fprate, size: p.size, k: p.k, tweak: p.tweak}).direct()
+	_, fl := (&filterPlan{ctor: p.ctor, elements: p.elements, fprate: p.fprate, size: p.size, k: p.k, tweak: p.tweak, txTypes: p.txTypes}).direct()
 	buf := new(bytes.Buffer)
 	if err := fl.Serialize(buf); err != nil {
 		return nil, err
@@ -99,6 +104,13 @@ func TestServed(t *testing.T) {
 		c := &servedCase{}
 		plan := &filterPlan{}
 		plan.tweak = rapid.OneOf(rapid.Just(uint32(0)), rapid.Uint32Range(0, 0xfffffffe)).Draw(t, "tweak")
+		sideChain := rapid.IntRange(0, 5).Draw(t, "sideChainFilter") == 0
+		if sideChain {
+			plan.tweak = 0xffffffff
+			for _, b := range rapid.SliceOfN(rapid.SampledFrom([]byte{byte(common2.CoinBase), byte(common2.TransferAsset), byte(common2.Record), 0x63}), 0, 2).Draw(t, "txTypes") {
+				plan.txTypes = append(plan.txTypes, b)
+			}
+		}
 		if rapid.Bool().Draw(t, "ctorNew") {
 			plan.ctor = "new"
 			plan.elements = uint32(rapid.IntRange(1, 200).Draw(t, "elements"))
@@ -146,6 +158,9 @@ func TestServed(t *testing.T) {
 			m := &txModel{}
 			tt := common2.TransferAsset
 			var pl interfaces.Payload = &payload.TransferAsset{}
+			if i > 0 && rapid.IntRange(0, 3).Draw(t, "record") == 0 {
+				tt, pl = common2.Record, &payload.Record{Type: "r", Content: rapid.SliceOfN(rapid.Byte(), 0, 6).Draw(t, "rec")}
+			}
 			if i == 0 {
 				tt, pl = common2.CoinBase, &payload.CoinBase{Content: rapid.SliceOfN(rapid.Byte(), 0, 6).Draw(t, "cb")}
 				inputs = append(inputs, &common2.Input{Previous: common2.OutPoint{Index: 0xffff}, Sequence: 0xffffffff})
@@ -191,6 +206,7 @@ func TestServed(t *testing.T) {
 			tx := functions.CreateTransaction(ver, tt, 0, pl, []*common2.Attribute{}, inputs, outputs,
 				rapid.Uint32().Draw(t, "lock"), []*pg.Program{})
 			m.hash = hash(tx.Hash())
+			m.txType = byte(tt)
 			if rapid.IntRange(0, 11).Draw(t, "watchTxid") == 0 {
 				plan.adds = append(plan.adds, append([]byte(nil), m.hash[:]...))
 				c.Watched = append(c.Watched, "txid:"+hx(m.hash))
@@ -245,7 +261,7 @@ func TestServed(t *testing.T) {
 			t.Fatalf("harness: served filter: %v", ferr)
 		}
 		c.Ctor, c.Size, c.K, c.Tweak = plan.ctor, plan.size, plan.k, plan.tweak
-		ref := &refFilter{bits: make([]byte, plan.size), k: plan.k, tweak: plan.tweak}
+		ref := &refFilter{bits: make([]byte, plan.size), k: plan.k, tweak: plan.tweak, txTypes: plan.txTypes}
 		for _, a := range plan.adds {
 			ref.add(a)
 		}
@@ -255,7 +271,7 @@ func TestServed(t *testing.T) {
 			if c.match[i] {
 				c.Expected = append(c.Expected, i)
 			}
-			if related[i] && !c.match[i] {
+			if related[i] && !c.match[i] && !sideChain {
 				t.Fatalf("harness: reference filter has a false negative")
 			}
 		}
@@ -281,7 +297,7 @@ func TestServed(t *testing.T) {
 				set[i] = true
 			}
 			for i := range related {
-				if !set[uint32(i)] {
+				if !set[uint32(i)] && !sideChain { // side-chain filters do not watch outpoints/txids
 					vk.Report(t, "C08:"+got.name+":watched-transaction-not-matched", fmt.Sprintf("tx %d", i), c)
 					return
 				}
@@ -324,6 +340,9 @@ func TestServed(t *testing.T) {
 		cl := "served/" + shapeClass(&c.proofCase)
 		if len(related) > 0 {
 			cl += "/watched"
+		}
+		if sideChain {
+			cl += "/side-chain-filter"
 		}
 		vk.Case(cl, nontrivial(&c.proofCase), key, func() any { return c })
 	})
